@@ -119,6 +119,21 @@ def check(run):
     jobs += [{"k": "total", "tag": "sigma", "inputs": strs[i:i + 400]} for i in range(0, len(strs), 400)]
     jobs += [{"k": "total", "tag": "garbage", "inputs": garb[i:i + 400]} for i in range(0, len(garb), 400)]
     jobs += [{"k": "total", "tag": "long", "longs": longs[i:i + 6]} for i in range(0, len(longs), 6)]
+    # small scope for the range grammars: every sequence of <= 2 (quick; plus a seeded sample of the 3-token ones) / <= 3
+    # (thorough) range tokens of an ecosystem (Tokens.tla, TMode = "r"), fed to that ecosystem's own parser and observers
+    rt = vlib.range_token_texts(run, sorted(U), 3)
+    nrt = 0
+    for e in sorted(rt):
+        ts = rt[e]
+        if quick:
+            import re
+            short = [t for t in ts if len(t) <= 8]
+            opnum = [t for t in ts if re.match(r"^[<>=!~^]+(?:1\.0\.0|1|0|9223372036854775807)[^0-9]", t)]   # operator, number, one more token
+            ts = list(dict.fromkeys(short[:1500] + opnum + rnd.sample(ts, min(len(ts), 400))))
+        nrt += len(ts)
+        for i in range(0, len(ts), 500):
+            jobs.append({"k": "total", "tag": "rtokens", "only": [e], "inputs": [list(t.encode()) for t in ts[i:i + 500]]})
+    run.extra["range_token_inputs"] = nrt
     # CLI: every string of length <= 2 (no NUL: it cannot be passed in an argument vector) in every argument position
     short = [s for s in strs if len(s) <= 2 and 0 not in s] + [g for g in garb[:200] if 0 not in g and len(g) < 2000]
     cliruns = []
